@@ -295,6 +295,27 @@ CLAIMED = {
         'matrices, textbook hstack/vstack/block_diag/inv, float32 snapped to rationals; dtypes not modelled here (C05).',
         'DESIGN.md section 4, C04',
     ),
+    'C03': (
+        'Coq proof over the shared operator-term model, for all expression trees (any depth, any container nesting) over a '
+        'commutative ring: <e x, y> = <x, e.T y> by induction from named leaf adjointness facts with closure lemmas '
+        '(composition reverses, sums operand-wise, block row<->column, inner product splits along any container), '
+        'structures swapped, e.T well-formed, e.T.T denotes e, structural identities (X.T.T is X, symmetric classes return '
+        'self, reversed composition); leaf facts discharged for the executable semantics of rotation / rotation-transpose / '
+        'HWP / 1-d diagonal and for matrix-backed lazy transposes; differential correspondence with NumPy oracle',
+        'transpose_adjoint, transpose_in_domain, adjoint_of_composition, inner_splits, transpose_structs, '
+        'transpose_well_formed, transpose_involutive, transpose_of_lazy_is_operand, symmetric_returns_self, '
+        'composition_reversed, block_row_column_swapped, inverse_transpose_excluded, exec_leaf_facts, '
+        'exec_transpose_is_adjoint, table_transpose_is_adjoint, fresh_lazy_transpose_is_adjoint: 22 obligations closed under '
+        'the global context. Tie: C-tie on ~160 operands (einsum variants incl. repeated letters, axes, index, diagonal, '
+        'Toeplitz, obs-matrix, explicit TransposeOperators) in 10 contexts: skeleton, structures, dense matrices of e.T and '
+        'e.T.T, integer-probe inner products (1314 quick / 14874 thorough).',
+        'Partial: the matrix form mat(e.T) = mat(e)^T is not a separate theorem (it is the adjoint identity at basis vectors; '
+        'checked by the oracle on every case); transpose_involutive covers wrappers as .T creates them. Trusted: '
+        'jax.linear_transpose yields the adjoint of an opaque operator (validated numerically on every operand); '
+        'table-backed leaf facts rest on measured matrices (element-level proofs in C09/C11/C13/C14). Transposes of the '
+        'iterative inverse are excluded (unsupported by the library).',
+        'DESIGN.md section 4, C03',
+    ),
 }
 
 PENDING_REASON = 'check not built yet in this session (work in progress; see DESIGN.md section 8 for the order of work)'
